@@ -64,7 +64,7 @@ func c05Canon(v interface{}, d int) string {
 		p := make([]string, 0, len(x))
 		for k, e := range x {
 			val := c05Canon(e, d-1)
-			if ks, ok := k.(string); ok && isErr {
+			if ks, ok := k.(string); ok && isErr && d-1 > 0 {
 				switch ks {
 				case "error":
 					val = "~E"
@@ -628,6 +628,24 @@ func init() {
 				"a := [1, 2, 3]\na[\"9223372036854775807\"] := 1",
 			} {
 				emit("corpus (review)", s, "a", "b", "o")
+			}
+			// the inputs of the add / del repairs (fixes/C05-add-del-new-list.patch, fixes/C05-del-number-key.patch):
+			// add and del return NEW lists, del(map, k) removes an existing number key
+			for _, s := range []string{
+				"a := [1, 2, 3]\nb := add(a, 4)\nc := add(a, 5)\nx.mark(a, b, c)",
+				"a := [1, 2, 3]\nb := del(a, 0)\nx.mark(a, b)",
+				"a := [1, 2, 3]\nb := add(a, 9, 0)\nx.mark(a, b)\nc := add(a, 8, 3)\nx.mark(a, b, c)",
+				"a := {1: \"a\"}\nb := del(a, 1)\nx.mark(len(a), a, b)",
+				"a := {1: \"a\", \"1\": \"b\"}\ndel(a, 1)\nx.mark(a)\ndel(a, 1)\nx.mark(a)",
+				"a := {1: \"a\", \"1\": \"b\"}\ndel(a, \"1\")\nx.mark(a)\ndel(a, \"1\")\nx.mark(a)",
+				"a := {\"1\": \"b\", 2: \"c\"}\ndel(a, 1)\ndel(a, \"2\")\nx.mark(a, len(a))",
+				"a := [1, 2, 3]\nb := a\nc := add(a, 4)\nc[0] := 9\nx.mark(a, b, c)\nb := del(c, 3)\nb[1] := 8\nx.mark(a, b, c)",
+				"a := [[1], [2]]\nb := add(a, [3])\nb[0][0] := 9\nx.mark(a, b)\nc := del(b, 2)\nc[1][0] := 8\nx.mark(a, b, c)",
+				"a := []\nfor c in [1, 2, 3, 4, 5] {\nb := a\na := add(a, c)\nx.mark(a, b)\n}\na := del(del(a, 0), 0)\nx.mark(a)",
+				"func f(a) {\nreturn add(a, 0)\n}\na := [1]\nb := f(a)\nc := f(a)\nb[1] := 7\nx.mark(a, b, c)",
+				"a := [1]\nb := del(a, 0)\nx.mark(a, b, b == [], len(b))\nc := add(b, 5)\nx.mark(b, c)",
+			} {
+				emit("corpus (add / del repairs)", s, "a", "b", "c")
 			}
 			// (1) scope shape x assignment form x where the name was defined
 			for _, df := range c05Defs {
